@@ -902,11 +902,10 @@ class VariablesInAllowedPositionChecker(VariablesCollector):
     Variables passed to field arguments conform to type """
 
     def iter_op_variables(self, op):
-        for usage in self._op_variables[op].items():
+        for usage in self._op_variable_usages[op]:
             yield usage
         for fragment in self._op_fragments[op]:
-            frament_vars = self._fragment_variables[fragment].items()
-            for usage in frament_vars:
+            for usage in self._fragment_variable_usages[fragment]:
                 yield usage
 
     def leave_document(self, node):
